@@ -43,6 +43,13 @@ Blocks == {
                     <<XA, SLet("Signal", "xr", CallE("ra", <<RA>>))>>, ""),
   Blk("bundle_duplicate", <<>>, <<SLet("Bundle", "xd", BLit(<<Lit(TName("iron-plate"), Num(1)), Lit(TName("iron-plate"), Num(2))>>))>>, "iron-plate"),
   Blk("bundle_duplicate", <<>>, <<XA, SLet("Bundle", "xd", BLit(<<RA, Lit(TName("signal-A"), Num(2))>>))>>, "signal-A"),
+  Blk("bundle_duplicate", <<>>, <<XA, XB, BBdef, SLet("Bundle", "xd", BLit(<<Ref("xbb"), Lit(TName("signal-A"), Num(5))>>))>>, "signal-A"),
+  Blk("bundle_duplicate", <<>>, <<XA, XB, BBdef, SLet("Bundle", "xd", BLit(<<Lit(TName("signal-A"), Num(5)), Ref("xbb")>>))>>, "signal-A"),
+  Blk("bundle_duplicate", <<>>, <<XA, XB, BBdef, SLet("Bundle", "xd", BLit(<<Ref("xbb"), RA>>))>>, "signal-A"),
+  Blk("bundle_duplicate", <<>>, <<XA, XB, BBdef, SLet("Bundle", "xd", BLit(<<Ref("xbb"), Lit(TName("signal-C"), Num(1)), Proj(RB, TName("signal-A"))>>))>>, "signal-A"),
+  Blk("bundle_duplicate", <<>>, <<XA, XB, BBdef, SLet("Bundle", "xc", BLit(<<Lit(TName("signal-B"), Num(1)), Lit(TName("signal-C"), Num(1))>>)), SLet("Bundle", "xd", BLit(<<Ref("xbb"), Ref("xc")>>))>>, "signal-B"),
+  Blk("bundle_duplicate", <<>>, <<XA, XB, BBdef, SLet("Bundle", "xd", BLit(<<Ref("xbb"), Ref("xbb")>>))>>, ""),
+  Blk("bundle_duplicate", <<>>, <<XA, XB, BBdef, SLet("Bundle", "xc", BLit(<<Ref("xbb"), Lit(TName("signal-C"), Num(1))>>)), SLet("Bundle", "xd", BLit(<<Ref("xc"), Lit(TName("signal-B"), Num(3))>>))>>, "signal-B"),
   Blk("bundle_op_bundle", <<>>, <<XA, XB, BBdef, SLet("Bundle", "xc", BLit(<<Lit(TName("signal-C"), Num(1))>>)), SLet("Bundle", "xr", Bin("+", Ref("xbb"), Ref("xc")))>>, ""),
   Blk("bare_bundle_cmp", <<>>, <<XA, XB, BBdef, SLet("Signal", "xr", Bin(">", Ref("xbb"), Num(3)))>>, ""),
   Blk("absent_member", <<>>, <<XA, XB, BBdef, SLet("Signal", "xr", Sel(Ref("xbb"), "signal-Z"))>>, "signal-Z"),
